@@ -38,7 +38,7 @@ Definition src2_get_nameid_format (registration_info : pyval -> pyval -> pyval) 
 Definition src2_get_lifetime (registration_info : pyval -> pyval -> pyval) (v_self : pyval) (v_sp_entity_id : pyval) : pyval :=
   (py_bind v_sp_entity_id (fun a_1 => (py_bind (p2_mkdict [("hours", (PInt (1)%Z))]) (fun a_2 => (src2_policy_get registration_info v_self (PStr "lifetime") a_1 a_2))))).
 
-(* saml2/assertion.py:Policy.conditions, lines 582-599 *)
+(* saml2/assertion.py:Policy.conditions, lines 586-603 *)
 Definition src2_conditions (factory : pyval -> list (string * pyval) -> pyval) (instant : pyval) (not_on_or_after : pyval -> pyval -> pyval) (v_self : pyval) (v_sp_entity_id : pyval) : pyval :=
   (py_bind instant (fun a_4 => (py_bind (py_bind v_sp_entity_id (fun a_1 => (not_on_or_after v_self a_1))) (fun a_5 => (py_bind (p2_mklist [(py_bind (p2_mklist [(py_bind v_sp_entity_id (fun a_2 => (factory (PStr "Audience") [("text", a_2)])))]) (fun a_3 => (factory (PStr "AudienceRestriction") [("audience", a_3)])))]) (fun a_6 => (factory (PStr "Conditions") [("audience_restriction", a_6); ("not_before", a_4); ("not_on_or_after", a_5)]))))))).
 
